@@ -185,9 +185,11 @@ def run(ctx):
         ctx.check(len(hw) == 1, RI, "compress::one-hash-update-per-block", c["file"], "one hash update per block iteration", observed=len(hw))
         if hw:
             h = hw[0]
-            buf = H.show(hq.peel(h["args"][0])).lstrip("&")
-            rs = [x for x in hq.find(c["body"], lambda x: x.get("k") == "MethodCall" and x["name"] == "resize" and H.show(hq.peel(x["recv"])) == buf)]
-            ok = len(rs) == 1 and rs[0]["sp"][0] < h["sp"][0] and H.show(hq.peel(rs[0]["args"][0])) == "read_bytes"
+            from . import c02 as _c02
+            BF = _c02.block_facts(ctx)
+            buf = ix.canon(h["args"][0])
+            rs = [x for x in BF["resize"] if ix.canon(x["recv"]) == buf]
+            ok = len(rs) == 1 and rs[0]["sp"][0] < h["sp"][0] and BF["count_ok"]
             ctx.check(ok, RI, "compress::hash-after-truncation", H.loc(c, h),
                       "the block buffer is truncated to the bytes actually read before it is hashed")
             # unconditional in the outer loop body, before every emission
@@ -203,15 +205,13 @@ def run(ctx):
             okb = True
             for x in ser:
                 if (H.callee(x) or "").endswith("compress_fastest"):
-                    okb = okb and H.show(hq.peel(x["args"][2])) == buf
+                    okb = okb and ix.canon(x["args"][2]) == buf
             ex = [x for x in hq.find(outer["body"], lambda x: x.get("k") == "MethodCall" and x["name"] == "extend_from_slice")]
-            okb = okb and all(H.show(hq.peel(x["args"][0])).lstrip("&") == buf for x in ex)
+            okb = okb and all(ix.canon(x["args"][0]) == buf for x in ex)
             ctx.check(okb, RI, "compress::hashed-buffer-is-encoded-buffer", c["file"], "the bytes hashed are the bytes encoded")
             # all bytes read land in that buffer: source.read(&mut buf[read_bytes..])
-            rd = [x for x in hq.find(outer["body"], lambda x: x.get("k") == "MethodCall" and x["name"] == "read")]
-            ok = len(rd) == 1 and H.show(hq.peel(rd[0]["args"][0])).replace("&mut ", "") == "%s[range::RangeFrom { start: read_bytes }]" % buf
-            adv = [x for x in hq.find(outer["body"], lambda x: x.get("k") == "AssignOp" and H.show(hq.peel(x["l"])) == "read_bytes")]
-            ok = ok and len(adv) == 1 and adv[0]["op"] == "+=" and H.show(hq.peel(adv[0]["r"])) == "new_bytes"
+            # (provenance: one read of the source into space[count..]; count starts at 0 and grows by what the read returned)
+            ok = BF["read_ok"] and BF["adv_ok"] and hq.Canon(c, force=True)(h["args"][0]) == _c02.SPACE_
             ctx.check(ok, RI, "compress::reads-append-to-block", c["file"], "every read appends at read_bytes and advances it by the bytes read")
     ctx.guard(RI, "hash_input", hash_input)
 
